@@ -1,4 +1,5 @@
 import RedoModel.Lemmas.Deps
+import RedoModel.Props.C14b
 /-!
 # C14 — redo-ifcreate and redo-always dependencies
 Property theorems only.  Model: `RedoModel/Deps.lean`.
